@@ -758,6 +758,8 @@ def fam_discovery(tier, base):
     viols, tr = verif.validate_trace("Trace_Discovery", "Trace_Discovery.cfg", trace)
     lines = verif.read_lines(trace)
     cnt = lambda s: sum(1 for ln in lines if s in ln)
+    if cnt('"envfail":true') > max(2, len(lines) // 10):
+        raise Broken("the store ended the service stream in %d of %d schedules (overloaded machine?)" % (cnt('"envfail":true'), len(lines)))
     return dict(trace=trace, viols=viols, states=r.distinct, transitions=r.generated + gen + gen2, configs=["MC_Discovery_ok.cfg", "MC_Discovery_stalled.cfg", "MC_Discovery_sim.cfg", "MC_Discovery_simstalled.cfg", "Trace_Discovery.cfg"], window=1,
                 exhaustive=False, traces={"*": len(lines)}, samples={"*": [json.loads(x) for x in lines[:2]]},
                 nontrivial={"C27": cnt('"op":"sub"')},
